@@ -147,8 +147,29 @@ Definition spec_lit_field (md : nat) (n : lname) : res field :=
     end
   end.
 
-(* the value of one literal for a field; a message literal is parsed like text format: field by field,
-   in order, the first problem rejects the literal *)
+(* a message literal is parsed like text format: field by field, in order, the first problem rejects it *)
+Definition spec_lit_loop (sv : field -> oval -> res val) (md : nat) : list (lname * oval) -> mval -> res val :=
+  fix lit (fs : list (lname * oval)) (m : mval) {struct fs} : res val :=
+    match fs with
+    | [] => Ok (VM m)
+    | (nm, fv) :: r =>
+      match spec_lit_field md nm with
+      | Err x => Err x
+      | Ok f =>
+        if negb (target_ok f) then Err ETargetType
+        else
+          match spec_values_with sv f fv with
+          | Err x => Err x
+          | Ok vs =>
+            match spec_store (msg_fields sch md) f vs m with
+            | Err x => Err x
+            | Ok m' => lit r m'
+            end
+          end
+      end
+    end.
+
+(* the value of one literal for a field *)
 Fixpoint spec_value (fld : field) (v : oval) (inlit : bool) {struct v} : res val :=
   match fkind fld with
   | KEnum e =>
@@ -158,26 +179,7 @@ Fixpoint spec_value (fld : field) (v : oval) (inlit : bool) {struct v} : res val
     end
   | KMsg md =>
     match v with
-    | OMsg fs =>
-      (fix lit (fs : list (lname * oval)) (m : mval) {struct fs} : res val :=
-         match fs with
-         | [] => Ok (VM m)
-         | (nm, fv) :: r =>
-           match spec_lit_field md nm with
-           | Err x => Err x
-           | Ok f =>
-             if negb (target_ok f) then Err ETargetType
-             else
-               match spec_values_with (fun g x => spec_value g x true) f fv with
-               | Err x => Err x
-               | Ok vs =>
-                 match spec_store (msg_fields sch md) f vs m with
-                 | Err x => Err x
-                 | Ok m' => lit r m'
-                 end
-               end
-           end
-         end) fs []
+    | OMsg fs => spec_lit_loop (fun g x => spec_value g x true) md fs []
     | _ => Err ETypeMessage
     end
   | k => match spec_scalar k v inlit with Ok s => Ok (VS s) | Err x => Err x end
@@ -274,9 +276,9 @@ Definition schema_explicit (sch : schema) : bool :=
 (* same value, or both reject (the error class is not part of the property) *)
 Definition spec_chk (c : opt_case) : bool :=
   match c with
-  | OC sch tt T stmts os _ _ =>
+  | OC sch tg T stmts os _ _ =>
     schema_wf sch &&
-    match protoc_interpret sch tt T [] stmts, os with
+    match protoc_interpret sch tg T [] stmts, os with
     | Ok m, ObsOk tree idx => mval_eqb (wire sch T m) tree && match idx with [] => true | _ => false end
     | Err _, (ObsErr _ | ObsPanic | ObsOther) => true
     | _, _ => false
